@@ -32,10 +32,11 @@ MODULE = "refsig/ZadoffChu.tla"
 JVM_ENV = {"JAVA_TOOL_OPTIONS": "-XX:ParallelGCThreads=1 -XX:CICompilerCount=2"}   # small runs: keep the JVM lean
 DEVS = ["PrimeTableEndsAt1009", "ZeroPadExtension", "NSquaredPhase", "ShiftDenominator8",
         "TapWindowOffByOne", "LsGramNotConjugated",
+        "NormalizeFlagSplit", "ExtraDimByIdentity",
         "UserCreationAliasesRoot", "WindowCachedOnEstimator", "ResultBufferReused"]     # the last three: RefSession.tla
 INVARIANTS = ["PrimeIsLargest", "ConstantAmplitude", "ZeroAutocorrelation", "FlatSpectrum", "LargeLengthLags", "CyclicExtension",
               "RootIsExtendedZc", "UeIsShiftedRoot", "ShiftOrthogonality", "LsExact", "LsScaleCovariant", "ScenarioOk",
-              "EstimateExact", "EstimateHomogeneous"]
+              "EstimateExact", "EstimateHomogeneous", "FlagAgreement"]
 ACTIONS = ["PrimeCase", "ZcCase", "ExtCase", "RootCase", "UeCase", "ShiftCase", "LsCase", "EstCase"]
 TOL = 1e-9
 TOL_REL = 1e-8
@@ -120,6 +121,8 @@ DEV_RUNS = {
     "NSquaredPhase": (["zc"], dict(ZcNs={5, 7}), "ZeroAutocorrelation"),
     "ShiftDenominator8": (["shift"], dict(ShiftLs={24}, ShiftDs={12}), "ShiftOrthogonality"),
     "TapWindowOffByOne": (["est"], dict(EstFams={"srs", "dmrs"}, EstLs={24, 48}, EstNrx={1, 2}, EstVars={1, 2}), "EstimateExact"),
+    "NormalizeFlagSplit": (["est"], dict(EstFams={"srs", "dmrs", "occ"}, EstLs={24, 48}, EstNrx={1, 2}, EstVars={1, 2, 3, 4}), "FlagAgreement"),
+    "ExtraDimByIdentity": (["est"], dict(EstFams={"occ"}, EstLs={24, 48}, EstNrx={1, 2, 3}, EstVars={1, 2, 3, 4}), "FlagAgreement"),
     "LsGramNotConjugated": (["ls"], dict(NLs=40), {"LsExact", "LsScaleCovariant"}),
 }
 
@@ -319,13 +322,34 @@ def do_root(c):
     return "ok", ""
 
 
-def ue_seq(fam, root, ncs, cover, normalize):
+FID_EXTRADIM = "ExtraDimensionFlagIdentity"
+
+
+def flagval(v, form="bool"):
+    """a boolean option in the form the specification chose: Python singleton, numpy bool, integer 0 / 1"""
+    if form == "np":
+        return np.bool_(bool(v))
+    if form == "int":
+        return int(bool(v))
+    return bool(v)
+
+
+def ue_seq(fam, root, ncs, cover, normalize, form="bool"):
     from pyphysim.reference_signals.dmrs import DmrsUeSequence
     from pyphysim.reference_signals.srs import SrsUeSequence
     if fam == "srs":
-        return SrsUeSequence(root, ncs, normalize=normalize)
+        return SrsUeSequence(root, ncs, normalize=flagval(normalize, form))
     cc = np.array(cover) if cover else None
-    return DmrsUeSequence(root, ncs, cover_code=cc, normalize=normalize)
+    return DmrsUeSequence(root, ncs, cover_code=cc, normalize=flagval(normalize, form))
+
+
+def amplitude_either(got, want_normalised, norm2, tol):
+    """FlagAgreement leaves open what a non-singleton flag means for the sequence (normalised or not) as long as every
+    place agrees: accept the specified array or the same array without the normalisation"""
+    d = maxdiff(got, want_normalised)
+    if d > tol and norm2 != 1:
+        d = min(d, maxdiff(got, np.asarray(want_normalised) * np.sqrt(norm2)))
+    return d
 
 
 def do_ue(c):
@@ -335,17 +359,19 @@ def do_ue(c):
     if bad:
         return bad
     root = RootSequence(root_index=u, size=size)
-    seq = ue_seq(c["fam"], root, c["ncs"], c["cover"], c["normalize"])
+    form = c.get("flagform", "bool")
+    seq = ue_seq(c["fam"], root, c["ncs"], c["cover"], c["normalize"], form)
     want = unit(c["e"], nzc) * np.exp(2j * np.pi * np.asarray(c["ramp"], dtype=float) / c["rden"])
     if c["cover"]:
         want = want[np.newaxis, :] * np.asarray(c["cover"], dtype=float)[:, np.newaxis]
     want = want / np.sqrt(c["norm2"])
     got = seq.seq_array()
-    d = maxdiff(got, want)
-    if d > phase_tol(u, size, nzc):
+    tol = phase_tol(u, size, nzc)
+    d = maxdiff(got, want) if form == "bool" else amplitude_either(got, want, c["norm2"], tol)
+    if d > tol:
         return "viol", (f"{c['fam']} user sequence (size {size}, u {u}, n_cs {c['ncs']}, cover {c['cover']}, normalize "
-                        f"{c['normalize']}) differs from root * exp(j 2 pi n_cs k / {c['den']}) by {d:.3g}")
-    if seq.size != size or seq.normalized != c["normalize"]:
+                        f"{c['normalize']} as {form}) differs from root * exp(j 2 pi n_cs k / {c['den']}) by {d:.3g}")
+    if seq.size != size or bool(seq.normalized) != c["normalize"]:
         return "viol", f"{c['fam']} user sequence reports size {seq.size} / normalized {seq.normalized}"
     return "ok", ""
 
@@ -427,9 +453,10 @@ def estimate(sc, est_taps, root, tgt=None, estimator=None, factor=1.0):
     def taps_of(user):
         return [(t["d"], [complex(x[0], x[1]) for x in t["v"]]) for t in user["taps"]]
 
+    form = sc.get("flagform", "bool")
     if tgt is None:
-        tgt = ue_seq(sfam, root, sc["ct"], sc["cover"], sc["normalize"])
-    users = [(tgt, taps_of(sc))] + [(ue_seq(sfam, root, o["cs"], o["cover"], sc["normalize"]), taps_of(o))
+        tgt = ue_seq(sfam, root, sc["ct"], sc["cover"], sc["normalize"], form)
+    users = [(tgt, taps_of(sc))] + [(ue_seq(sfam, root, o["cs"], o["cover"], sc["normalize"], form), taps_of(o))
                                      for o in sc["others"]]
     occ = fam == "occ"
     Y = np.zeros((nrx, 2, L) if occ else (nrx, L), dtype=complex)
@@ -443,10 +470,10 @@ def estimate(sc, est_taps, root, tgt=None, estimator=None, factor=1.0):
     if occ:
         est = estimator if estimator is not None else CazacBasedWithOCCChannelEstimator(tgt)
         if sc["extradim"]:
-            got = call(est.estimate_channel_freq_domain, Y, K, extra_dimension=True)
+            got = call(est.estimate_channel_freq_domain, Y, K, extra_dimension=flagval(True, form))
         else:
             flat = np.ascontiguousarray(Y.reshape(Y.shape[:-2] + (2 * L,)))
-            got = call(est.estimate_channel_freq_domain, flat, K, extra_dimension=False)
+            got = call(est.estimate_channel_freq_domain, flat, K, extra_dimension=flagval(False, form))
     else:
         if estimator is not None:
             est = estimator
@@ -469,17 +496,27 @@ def estimate(sc, est_taps, root, tgt=None, estimator=None, factor=1.0):
     return got, want * factor, truth * factor
 
 
+def extradim_signature(sc):
+    """finding ExtraDimensionFlagIdentity: a cover-code estimate of a FLATTENED observation with extra_dimension given as a falsy
+    value that is not the singleton False (np.False_, 0)"""
+    return sc["fam"] == "occ" and not sc["extradim"] and sc.get("flagform", "bool") != "bool"
+
+
 def do_est(c):
     sc = c["sc"]
     root = _rs()(root_index=sc["u"], size=sc["size"])
+    verdict = FID_EXTRADIM if extradim_signature(sc) else "viol"
+    desc = (f"{sc['fam']} estimator (size {sc['size']}, comb x{sc['mult']}, {sc['nrx']} rx, keep {sc['keep']}, shift {sc['ct']}, "
+            f"{len(sc['others'])} other users, normalize {sc['normalize']}, extra_dimension {sc['extradim']}, flags as {sc.get('flagform', 'bool')}")
     for f in [1.0] + [scale_of(q) for q in c["scales"]]:
-        got, want, truth = estimate(sc, c["est"], root, factor=f)
+        try:
+            got, want, truth = estimate(sc, c["est"], root, factor=f)
+        except Exception as ex:
+            return verdict, f"{desc}) raised {type(ex).__name__}: {ex}"
         scale = f * max(1.0, float(np.max(np.abs(truth))) / f)
         d = max(maxdiff(got, want), maxdiff(got, truth))
         if d > TOL_REL * scale:
-            return "viol", (f"{sc['fam']} estimator (size {sc['size']}, comb x{sc['mult']}, {sc['nrx']} rx, keep {sc['keep']}, shift {sc['ct']}, "
-                            f"{len(sc['others'])} other users, normalize {sc['normalize']}, observation scaled by {f:g}) misses the "
-                            f"frequency response by {d:.3g} (relative {d / scale:.3g})")
+            return verdict, (f"{desc}, observation scaled by {f:g}) misses the frequency response by {d:.3g} (relative {d / scale:.3g})")
     return "ok", ""
 
 
